@@ -353,7 +353,8 @@ def check(ctx):
     for gid in list(expect)[:60 if ctx.tier == "quick" else 600]:
         t = expect[gid]["text"]
         # the complete text followed by an opening delimiter that is never closed
-        cut = t.rstrip() + " " + ctx.rng.choice(["(", "'", "[", "{", "<", '"', "[[", "&", "!"])
+        # (on a line of its own: the text may end inside a comment that runs to the end of the line)
+        cut = t.rstrip() + "\n " + ctx.rng.choice(["(", "'", "[", "{", "<", '"', "[[", "&", "!"])
         trunc.append((gid, cut))
         reqs.append(dict(id="tr_" + gid, text=cut + "\n", out="", inline=False, switch=False, noast=False))
     res = B.frontdump(bd, reqs)
